@@ -872,6 +872,10 @@ def _eval_bool(ctx, t, env, props=None):
     return (not b) if neg else b
 
 
+import time     # noqa: E402
+_DEADLINE = [None]      # set by sa.equiv while a function is compared with its reference form
+
+
 def _key_is_constant(ctx, key):
     """the term with this key is a literal (string / number / None / True / False)"""
     num, den = key
@@ -948,6 +952,8 @@ def order_equiv(ctx, t1, t2, variables, pre=None, lo=1):
                 if lst[i_][1] != lst[j_][1]:
                     excl.append((lst[i_][0], lst[j_][0]))
     for vals in itertools.product(range(lo, hi + 1), repeat=len(ids)):
+        if _DEADLINE[0] is not None and time.time() > _DEADLINE[0]:
+            return None       # budget of the caller (the equivalence check) exhausted: not decided
         if pre is not None and not pre(vals):
             continue
         env = {i: Fraction(x) for i, x in zip(ids, vals)}
